@@ -20,6 +20,9 @@ type OpRec struct {
 	Err   string `json:"err"`   // "" | injected:<kind> | real:<text>
 	Bytes []byte `json:"-"`     // marshalled message handed to Store
 	Write bool   `json:"write"` // Store or Remove
+	// Msg: the message object handed to Store (kept only when RecStorage.Retain is set): a back end may serialise what
+	// it was given after Store has returned (write-behind), so the object must stay as it was handed over
+	Msg proto.Message `json:"-"`
 }
 
 type FaultKind string
@@ -61,6 +64,7 @@ type RecStorage struct {
 	FailOp   string
 	FailType string
 	FailId   string // when set, the id of the message must match too
+	Retain   bool   // keep the message objects handed to Store (OpRec.Msg)
 	nid      bool
 }
 
@@ -223,6 +227,9 @@ func (r *RecStorage) Store(ctx context.Context, m nodeenrollment.MessageWithId) 
 		id = m.GetId()
 	}
 	rec, ferr := r.begin("Store", typeName(m), id, true, b)
+	if r.Retain && !nodeenrollment.IsNil(m) {
+		rec.Msg = m
+	}
 	if ferr != nil {
 		r.end(rec, ferr)
 		return ferr
